@@ -15,7 +15,7 @@ import ast
 import string
 
 from ..astutil import ancestors, call_name, calls, enclosing_stmt, kwarg, parents, u
-from ..formula import atoms_of, contains_key, extract, spec
+from ..formula import atoms_of, contains_key, extract, same, spec
 from ..model import AnalysisError
 from ..paths import enumerate_paths
 from ..termflow import ADict, AList, Poly, Unsupported, equivalent, key_atom, poly_from_key, show, show_key, vkey
@@ -640,6 +640,8 @@ def rule_N3_N4(ctx):
             keys_ok = keys_ok or any(contains_key(a[2], e) for e in expl)
     ok = bool(expl) and bool(grp) and keys_ok
     ctx.check(ok, "N3", "get_clone_table returns the (clone_id, sample_id) groups of the exploded table", f.where(), "the returned table (%s) is not assembled from groupby(['clone_id', 'sample_id']) of the exploded labels table" % show(ex.result)[:200], construct=f.qualname, stmt="returned table")
+    # N3.d every group is returned, on every path (a group whose clone has no CCF — the outliers — included)
+    same(ctx, "N3", "get_clone_table returns every (clone_id, sample_id) group, whether or not the clone has a CCF", f, ex.result, sp.result, "returned table", stmt="returned groups")
     # N4
     for col in ("ccf", "clonal_prev"):
         gsub = {k: v for k, v in ex.sub_stores().items() if _str_of_key(k[1]) == col}
